@@ -1126,9 +1126,9 @@ impl<'s, K: Kind<X>, X: Item> VecExec<'s, K, X> {
                 if let Some(out) = guard_nopanic("from_slice", 0, 0, || K::from_slice_u32(&src)) {
                     self.st.probes[P_FROM_SLICE] += 1;
                     for i in 0..n {
-                        let want = if i < j { src[i] } else { 0 };
+                        let want = if i < j { src[i] } else { C32_DEFAULT };
                         if out.get(i).copied() != Some(want) {
-                            tok::raise(V5_ORDER, format!("from_slice of {} elements into {}: position {} holds {:?}, expected {}", j, K::NAME, i, out.get(i), want));
+                            tok::raise(V5_ORDER, format!("from_slice of {} elements into {}: position {} holds {:?}, expected {} ({})", j, K::NAME, i, out.get(i), want, if i < j { "the slice's element" } else { "T::default()" }));
                             break;
                         }
                     }
